@@ -461,7 +461,11 @@ def main():
 
 
 def last_lines(s, n):
-    return " | ".join(s.strip().splitlines()[-n:])[:1500]
+    lines = s.strip().splitlines()
+    key = [l.strip() for l in lines if re.search(r"fatal error|DATA RACE|^panic:|goroutine stack exceeds|VERIF-VIOLATION", l)]
+    if key:
+        return " | ".join(key[:4])[:1500]
+    return " | ".join(lines[-n:])[:1500]
 
 
 if __name__ == "__main__":
